@@ -44,7 +44,7 @@ def evaluate(ctx, scs, tag):
     shard = 60
     files = []
     for k in range(0, len(items), shard):
-        body = clist(["s_check %s true" % it[2] for it in items[k:k + shard]])
+        body = clist(["s_check2 %s true %s" % (it[2], solvegen.insts_literal(it[3])) for it in items[k:k + shard]])
         files.append(("%s_%d" % (tag, k // shard), solve_common.HEADER + "Definition codes : list Z := %s.\nEval vm_compute in codes.\n" % body))
     outs = core.coq_eval_many(ctx, files, timeout=900)
     results = []
@@ -134,6 +134,9 @@ def run(ctx):
                                    {"scenario": solve_common.brief(sc, oi), "observed": {k: res.get(k) for k in ("outcome", "err", "before", "values", "lists")}, "code": code})
             elif (code & 1) and not rsz:
                 ctx.tie_broken.append("model's lowering != recorded solver terms in list scenario %r" % (solve_common.brief(sc, oi),))
+            elif (code & 512) and not rsz:
+                ctx.tie_broken.append("statements of one rand set of the model (Rand/Randset.build) were handed to different solver "
+                                      "instances in list scenario %r" % (solve_common.brief(sc, oi),))
         for si, (sc, o) in enumerate(zip(scs_, obs)):
             if "ops" not in o:
                 continue
